@@ -163,6 +163,23 @@ def templates():
         [OP(201130), E(33007, 'PER CENT CONFIDENCE', '%', 7), E(40001, 'SURFACE SOIL MOISTURE', '%', 10, 1, -3), OP(201000), OP(202129),
          E(40001, 'SURFACE SOIL MOISTURE', '%', 10, 1, -3), OP(202000), OP(207001), E(40001, 'SURFACE SOIL MOISTURE', '%', 10, 1, -3), E(33007, 'PER CENT CONFIDENCE', '%', 7),
          OP(207000), E(40001, 'SURFACE SOIL MOISTURE', '%', 10, 1, -3)], [300, 2555, 556, 9557, 1500, 558])
+    # marker operators while 201 / 202 / 207 / 208 are in force, and after they have been cancelled (a substituted value takes the
+    # width, scale and reference its element would have at that point of the template)
+    t['substituted values inside and after 201'] = (
+        [T(), T(12103), OP(223000), OP(236000), FIX(2, B()), OP(201130), OP(223255), OP(201000), OP(223255)], [2801, 2750, 0, 0, 11204, 2760])
+    t['substituted values inside and after 202'] = (
+        [T(), T(12103), OP(223000), OP(236000), FIX(2, B()), OP(202129), OP(223255), OP(202000), OP(223255)], [2801, 2750, 0, 0, 28015, 2760])
+    t['substituted values inside and after 207'] = (
+        [T(), T(12103), OP(223000), OP(236000), FIX(2, B()), OP(207001), OP(223255), OP(207000), OP(223255)], [2801, 2750, 0, 0, 28015, 2760])
+    t['substituted values before, inside and after 201 and 202'] = (
+        [T(), T(12103), T(12104), OP(223000), OP(236000), FIX(3, B()), OP(223255), OP(201129), OP(202129), OP(223255), OP(202000), OP(201000), OP(223255)],
+        [2801, 2750, 2700, 0, 0, 0, 2802, 7000, 2701])
+    t['substituted string inside and after 208'] = (
+        [E(1015, 'STATION OR SITE NAME', 'CCITT IA5', 32), E(1019, 'LONG STATION OR SITE NAME', 'CCITT IA5', 32), OP(223000), FIX(2, B()), OP(208002), OP(223255), OP(208000),
+         OP(223255)], [b'ABCD', b'EFGH', 0, 0, b'XY', b'WXYZ'])
+    t['first-order statistics in a delayed replication, more data behind it'] = (
+        [T(), T(12103), OP(224000), OP(236000), FIX(2, B()), E(8023, 'FIRST ORDER STATISTICS', 'CODE TABLE', 6), DEL(F31001(), OP(224255)), T(), E(1002, nbits=10)],
+        [2801, 2750, 0, 0, 4, 2, 2811, 2760, 2802, 7])
     t['missing values'] = ([T(), E(20003, 'PRESENT WEATHER', 'CODE TABLE', 9), E(20004, 'PAST WEATHER', 'FLAG TABLE', 1), T(12103)], [None, None, 1, 2750])
     return t
 
